@@ -265,7 +265,7 @@ class C07(Prop):
     id = "C07"
     thm_module = "H263V.Thm.C07"
     rule = ("Y lines: 256x1 pictures, luma 0..255 with one (Cb, Cr) pair per picture, through bt601::yuv420_to_rgba vs. the Lean "
-            "model; quick: a 24x24 stratified grid of (Cb, Cr) pairs incl. the extremes (147,456 triples) plus random pairs; "
+            "model; quick: a 24x24 stratified grid of (Cb, Cr) pairs incl. the extremes (147,456 triples) plus random pairs plus every pair for which some luma puts a channel sum exactly on a rounding boundary; "
             "thorough: all 65,536 pairs = all 2^24 triples.  Non-trivial / distinct: distinct (Y,Cb,Cr) triples counted (256 per distinct pair).")
     assumptions = ["little-endian target (the big-endian cfg branch of the byte interleave is not compiled here)",
                    "wide::i32x4 operations are lane-wise and wrap (modelled with explicit wrap32, proved not to occur)"]
@@ -277,6 +277,23 @@ class C07(Prop):
             grid = sorted(set([0, 1, 2, 15, 16, 17, 64, 90, 110, 126, 127, 128, 129, 130, 160, 200, 224, 239, 240, 241, 243, 244, 254, 255]))
             pairs = [(a, b) for a in grid for b in grid]
             pairs += [(rng.randint(0, 255), rng.randint(0, 255)) for _ in range(400)]
+            # rounding boundaries: (Cb, Cr) pairs for which some luma value puts a channel sum exactly half-way between two
+            # integers (16.16 fixed point; coefficients as proved equal to the BT.601 values by the C07 theorems)
+            ky, krv, kgu, kgv, kbu = 76309, 104597, -25675, -53279, 132201
+            by_res = {}
+            for y in range(256):
+                by_res.setdefault(((y - 16) * ky) % 65536, []).append(y)
+            bnd = set()
+            for c in range(256):
+                if (32768 - (c - 128) * krv) % 65536 in by_res:
+                    bnd.add((rng.randint(0, 255), c))
+                if (32768 - (c - 128) * kbu) % 65536 in by_res:
+                    bnd.add((c, rng.randint(0, 255)))
+            for cb in range(256):
+                for cr in range(256):
+                    if (32768 - (cb - 128) * kgu - (cr - 128) * kgv) % 65536 in by_res:
+                        bnd.add((cb, cr))
+            pairs += sorted(bnd)
         else:
             pairs = [(a, b) for a in range(256) for b in range(256)]
         for (cb, cr) in pairs:
@@ -304,14 +321,42 @@ class C07(Prop):
         return tier == "thorough"
 
 
-def yuv_size_cases(rng, sizes):
+def yuv_plane(rng, w, h, style):
+    """one plane: 0 random; 1 every row the same (column-only content); 2 every column the same (row-only content);
+    3 constant; 4 rows repeated in pairs; 5 two-valued"""
+    if style == 1:
+        row = [rng.randint(0, 255) for _ in range(w)]
+        return row * h
+    if style == 2:
+        return [v for y in range(h) for v in [rng.randint(0, 255)] * w]
+    if style == 3:
+        return [rng.randint(0, 255)] * (w * h)
+    if style == 4:
+        rows = []
+        for y in range(h):
+            if y % 2 == 0 or not rows:
+                rows.append([rng.randint(0, 255) for _ in range(w)])
+            else:
+                rows.append(rows[-1])
+        return [v for r in rows for v in r]
+    if style == 5:
+        a, b = rng.randint(0, 255), rng.randint(0, 255)
+        return [rng.choice([a, b]) for _ in range(w * h)]
+    return [rng.randint(0, 255) for _ in range(w * h)]
+
+
+def yuv_size_cases(rng, sizes, structured=False):
     out = []
     for (w, h) in sizes:
         bw, bh = (w + 1) // 2, (h + 1) // 2
-        ys = [rng.randint(0, 255) for _ in range(w * h)]
-        cbs = [rng.randint(0, 255) for _ in range(bw * bh)]
-        crs = [rng.randint(0, 255) for _ in range(bw * bh)]
-        out.append(yuv_line(w, h, ys, cbs, crs))
+        if structured:
+            # independent styles per plane: rows / columns of one plane repeat while another plane changes
+            sy, sb, sr = rng.choice([1, 1, 4, 3, 2, 5]), rng.choice([1, 1, 3, 4, 2, 0]), rng.choice([2, 0, 2, 4, 1, 5])
+            if rng.random() < 0.5:
+                sb, sr = sr, sb
+        else:
+            sy = sb = sr = 0
+        out.append(yuv_line(w, h, yuv_plane(rng, w, h, sy), yuv_plane(rng, bw, bh, sb), yuv_plane(rng, bw, bh, sr)))
     return out
 
 
@@ -320,7 +365,7 @@ class C08(Prop):
     id = "C08"
     thm_module = "H263V.Thm.C08"
     rule = ("Y lines: pictures of every width x height of the tier's range (quick: 1..70 x 1..9; thorough: 1..140 x 1..18, plus random "
-            "larger ones) with random plane contents, plus empty pictures (w x 0 for several w), through bt601::yuv420_to_rgba "
+            "larger ones) with random plane contents and, on a dense range of sizes, structured contents (each plane independently column-only, row-only, constant, rows in pairs, two-valued), plus empty pictures (w x 0 for several w), through bt601::yuv420_to_rgba "
             "(debug assertions on) vs. the Lean model; the search oracle is the pointwise statement pixel(x,y) = BT.601(luma(x,y), chroma(x/2,y/2)). "
             "Non-trivial: width not a multiple of 4, or odd height, or more than one 4-pixel group per row. Distinct by case text.")
     assumptions = C07.assumptions
@@ -333,6 +378,8 @@ class C08(Prop):
             sizes = [(w, h) for w in range(1, 141) for h in range(1, 19)]
             sizes += [(rng.randint(141, 1500), rng.randint(1, 60)) for _ in range(300)]
         out = yuv_size_cases(rng, sizes)
+        # structured contents (planes whose rows or columns repeat independently of the other planes)
+        out += yuv_size_cases(rng, [(w, h) for w in range(1, core.q(tier, 22, 60)) for h in range(1, core.q(tier, 10, 18))], structured=True)
         out += [f"Y {w} - - -" for w in (0, 1, 2, 3, 4, 5, 16, 17, 176)]
         return out
 
@@ -373,7 +420,7 @@ class C11(Prop):
     rule = ("L lines: inverse_rle (hook) on one-coefficient blocks: all 31 quantizers x all levels -1023..1023 (quick: all levels at 3 zig-zag "
             "positions + a 1-in-7 sample at the other 61; thorough: all 64 positions), multi-event blocks with random runs, early-return "
             "blocks (run past position 63); IDC lines: all 256 INTRADC codes; P lines: 16x16 Sorenson pictures carrying INTRA+Q macroblocks for "
-            "all 31 x 4 quantizer updates (the observation route named in the property). Non-trivial: every L/IDC line; distinct by text.")
+            "all 31 x 4 quantizer updates (the observation route named in the property), and one-macroblock pictures with every escape form at the ends of its level range, both signs. Non-trivial: every L/IDC line; distinct by text.")
     assumptions = ["levels are stored as f32 in the Rust code; all values are integers of magnitude <= 2048 and exact"]
 
     def cases(self, tier, rng):
@@ -397,6 +444,8 @@ class C11(Prop):
             out.append(f"L {q} {dc} {';'.join(evs) if evs else '-'}")
 
         out += core.gen_lines("dquant", 0, 0)
+        # the escape forms at the ends of their level ranges, parsed and dequantised through whole pictures
+        out += core.gen_lines("esclevels", 0, 0)
         return out
 
     def oracle_line(self, case):
